@@ -22,10 +22,16 @@ pub fn read_input_file_and_xsd_files_at_path(current_file: &Path) -> WriterResul
     let xml = std::fs::read_to_string(current_file)?;
     let mut files = Files::new(file_name, xml);
 
-    for entry in current_file.parent().ok_or(WriterError::PathNotFound)?.read_dir()? {
+    // a bare file name has an empty parent: that is the current directory
+    let directory = current_file
+        .parent()
+        .filter(|parent| !parent.as_os_str().is_empty())
+        .unwrap_or_else(|| Path::new("."));
+
+    for entry in directory.read_dir()? {
         let entry = entry?;
         let path = entry.path();
-        if path.is_file() && path.extension().unwrap_or_default() == "xsd" && !current_file.eq(&path) {
+        if path.is_file() && path.extension().unwrap_or_default() == "xsd" && path.file_name() != current_file.file_name() {
             let file_name = path
                 .file_name()
                 .ok_or(WriterError::PathNotFound)?
